@@ -28,6 +28,8 @@ struct Item {
     ctx_form: u8,
     /// constants: 0 = i32, 1 = a record with a String and the value (needs a generated clone), 2 = unit
     const_kind: u8,
+    /// constants: no function reads this constant directly (it is still evaluated, once)
+    no_helper: bool,
 }
 
 struct Graph {
@@ -55,7 +57,7 @@ fn decode(ctl: &[u8]) -> Graph {
     let n = n_consts + n_fns;
     let mut items: Vec<Item> = Vec::new();
     for i in 0..n {
-        items.push(Item { is_const: i < n_consts, module: c.below(n_modules), refs: vec![], uses_context: false, ctx_form: 0, const_kind: 0 });
+        items.push(Item { is_const: i < n_consts, module: c.below(n_modules), refs: vec![], uses_context: false, ctx_form: 0, const_kind: 0, no_helper: false });
     }
     // a hidden rank makes most graphs acyclic; a few extra edges ignore it
     let mut rank: Vec<usize> = (0..n).collect();
@@ -108,6 +110,7 @@ fn decode(ctl: &[u8]) -> Graph {
             it.const_kind = match c.below(8) {
                 0 | 1 => 1,
                 2 => 2,
+                3 => 3,
                 _ => 0,
             };
         }
@@ -134,6 +137,13 @@ fn decode(ctl: &[u8]) -> Graph {
             if !here.is_empty() {
                 tests.push((m, here[c.below(here.len())]));
             }
+        }
+    }
+    // some constants are read by no helper function: if nothing else mentions them either, they are
+    // unused, and still have to be evaluated exactly once
+    for i in 0..n {
+        if items[i].is_const && !tests.iter().any(|(_, t)| *t == i) {
+            items[i].no_helper = c.chance(90);
         }
     }
     Graph { tests, items, n_modules, order }
@@ -171,6 +181,7 @@ fn reference(g: &Graph, from: usize, to: usize, imports: &mut BTreeSet<String>, 
         match g.items[to].const_kind {
             1 => format!("{path}.n"),
             2 => format!("({{ {path}; 0 }})"),
+            3 => format!("{path}.a"),
             _ => path,
         }
     } else {
@@ -229,11 +240,23 @@ fn render_with(g: &Graph, vals: Option<&BTreeMap<usize, i64>>) -> Vec<(String, S
             match it.const_kind {
                 1 => {
                     let _ = writeln!(f, "const {}: {conf} = {{ {} {conf} {{ name: \"c{}\", n: e({}) + {} }} }};", name(g, i), pre.join(" "), i, i + 1, sum);
-                    let _ = writeln!(hf, "fn read_{}() -> i32 {{ let c = {}; if c.name == \"c{}\" {{ c.n }} else {{ -1 }} }}", name(g, i), name(g, i), i);
+                    if !it.no_helper {
+                        let _ = writeln!(hf, "fn read_{}() -> i32 {{ let c = {}; if c.name == \"c{}\" {{ c.n }} else {{ -1 }} }}", name(g, i), name(g, i), i);
+                    }
+                }
+                3 => {
+                    // plain data: a copy is modified by the helper, the constant must stay what it was
+                    let pt = if m == 0 { "Pt" } else { "pkg.Pt" };
+                    let _ = writeln!(f, "const {}: {pt} = {{ {} {pt} {{ a: e({}) + {}, b: 5 }} }};", name(g, i), pre.join(" "), i + 1, sum);
+                    if !it.no_helper {
+                        let _ = writeln!(hf, "fn read_{0}() -> i32 {{ let c = {0}; c.a = c.a + 100; c.b = c.b + 1; if c.b == 6 && {0}.b == 5 {{ {0}.a }} else {{ -1 }} }}", name(g, i));
+                    }
                 }
                 2 => {
                     let _ = writeln!(f, "const {}: () = {{ {} let t = e({}) + {}; }};", name(g, i), pre.join(" "), i + 1, sum);
-                    let _ = writeln!(hf, "fn read_{}() -> i32 {{ {}; 0 }}", name(g, i), name(g, i));
+                    if !it.no_helper {
+                        let _ = writeln!(hf, "fn read_{}() -> i32 {{ {}; 0 }}", name(g, i), name(g, i));
+                    }
                 }
                 _ => {
                     if pre.is_empty() {
@@ -241,7 +264,9 @@ fn render_with(g: &Graph, vals: Option<&BTreeMap<usize, i64>>) -> Vec<(String, S
                     } else {
                         let _ = writeln!(f, "const {}: i32 = {{ {} e({}) + {} }};", name(g, i), pre.join(" "), i + 1, sum);
                     }
-                    let _ = writeln!(hf, "fn read_{}() -> i32 {{ {} }}", name(g, i), name(g, i));
+                    if !it.no_helper {
+                        let _ = writeln!(hf, "fn read_{}() -> i32 {{ {} }}", name(g, i), name(g, i));
+                    }
                 }
             }
         } else {
@@ -256,7 +281,7 @@ fn render_with(g: &Graph, vals: Option<&BTreeMap<usize, i64>>) -> Vec<(String, S
             let _ = writeln!(text, "{imp}");
         }
         if m == 0 {
-            text.push_str("record Conf { name: String, n: i32 }\n");
+            text.push_str("record Conf { name: String, n: i32 }\nrecord Pt { a: i32, b: i32 }\n");
             text.push_str("fn idf(x: i32) -> i32 { x }\n");
         } else {
             text.push_str("import pkg.idf;\n");
@@ -451,15 +476,21 @@ impl WorkerState for W {
                         }
                         // values, and no re-evaluation on use
                         for i in 0..g.items.len() {
+                            if g.items[i].no_helper {
+                                continue;
+                            }
                             let fname = if g.items[i].is_const { format!("read_{}", name(&g, i)) } else { format!("call_{}", name(&g, i)) };
                             let full = if g.items[i].module == 0 { fname.clone() } else { format!("m{}.{}", g.items[i].module, fname) };
                             let f = match pkg.get_function::<fn() -> i32>(&full) {
                                 Ok(f) => f,
                                 Err(e) => return fail("get_function", format!("{full}: {e}")),
                             };
-                            let got = $call(&f) as i64;
-                            if got != vals[&i] {
-                                return fail("wrong-value", format!("{full}() returned {got}, expected {}", vals[&i]));
+                            // twice: every call observes the one value
+                            for round in 0..2 {
+                                let got = $call(&f) as i64;
+                                if got != vals[&i] {
+                                    return fail("wrong-value", format!("{full}() returned {got} (call {}), expected {}", round + 1, vals[&i]));
+                                }
                             }
                         }
                         if !g.tests.is_empty() {
